@@ -42,6 +42,7 @@ CONFIG = dict(
         dict(prop="C09", quick_cases=600, thorough_cases=40000),
         dict(prop="C12", quick_cases=1000, thorough_cases=60000),
         dict(prop="C19", quick_cases=300, thorough_cases=20000),
+        dict(prop="C15", quick_cases=800, thorough_cases=60000),
     ],
     fails=fails, classify=classify,
     rule="union of the component generators (see the evidence of each component property) plus the walker inputs (2 demo DLLs, 11 tiny files, 217 corkami files; 0..6 field-level corruptions aimed at headers, data directories, section headers and directory contents; truncations; file and mapped; every part of the walk under its own catch_unwind so that one defect does not hide the next). Debug and release builds. A case fails when any API call panics (harness assertions excluded: they belong to C01/C03/C10) or the worker process dies. Non-trivial: as defined by each component.",
